@@ -149,6 +149,16 @@ CLAIMED['C19'] = (
     'parses gives the same outcome as a fresh identical declaration (exhausted).',
     'input obligations are non-exhaustive (stated); literals come from stated vocabularies',
     'symbolic execution of the real code (CrossHair primitives + z3), metamorphic / differential assertions, concrete replay')
+CLAIMED['C12'] = (
+    'Symbolic execution of the real converters (TypeTransformer.to_* and the args parsers, union stages, data-class input) with '
+    'the same solver-chosen source converted under {}, {no_explicit_cast}, {no_data_loss} and both: whatever a flag set '
+    'accepts must be accepted without it with an equal value of the same type, and the documented promises are asserted '
+    'directly (int only from integral numbers with the value preserved, bool only from unambiguous forms, no multi-element '
+    'collection collapsing into a scalar, strict bytes decoding, no datetime / timed string becoming a date, extra tuple items '
+    'and unknown keys rejected, no cross-group conversion under no_explicit_cast apart from the documented exceptions). 26 '
+    'targets x the shared value generator; solver-driven exploration with every path replayed.',
+    'non-exhaustive (stated): EXPLORED-NO-VIOLATION per target; float -> int exact only for the picked float values',
+    'symbolic execution of the real code (CrossHair primitives + z3), metamorphic assertions across option sets, concrete replay')
 NOT_APPLICABLE = {}
 
 def main():
